@@ -72,14 +72,15 @@ KANI_RANGES_MULTIPLE = {
     "module": "parse_locales::ranges::verif_kani",
     "harness_files": ["kani/ranges.rs"],
     "flags": ["-Z", "function-contracts"],
-    "quick": ["dmm_i8::exact_or_bounds", "dmm_u64::exact_or_bounds", "check_de_1", "check_de_2", "check_de_3"],
+    "quick": ["dmm_i8::exact_or_bounds", "dms_i8::two_symbolic_children", "dms_u64::two_symbolic_children",
+              "check_de_1", "check_de_2", "check_de_3"],
     # three_children costs ~750 s per type (measured): thorough runs it for i8 only
-    "thorough": ["dmm_%s::exact_or_bounds" % t for t in INTS] + ["dmm_i8::three_children",
+    "thorough": ["dmm_%s::exact_or_bounds" % t for t in INTS] + ["dms_%s::two_symbolic_children" % t for t in INTS] + ["dmm_i8::three_children",
                  "check_de_1", "check_de_2", "check_de_3", "check_de_4"],
     "timeout": 1500,
     "procs": 8,
-    "bounded": "`Multiple` values with 2 or 3 children of fixed shapes (all operands symbolic, unwind 3/4 with "
-               "unwinding assertions), integer types only; check_de_inner on 1..=3 (thorough 4) branches drawn from "
+    "bounded": "`Multiple` values with 2 children of symbolic flat shape (5 shapes) or 2-3 children of fixed shapes (all operands "
+               "symbolic, unwind 3/4 with unwinding assertions), integer types only; check_de_inner on 1..=3 (thorough 4) branches drawn from "
                "{plain, fallback, list with fallback, list without}",
     "source_hint": "leptos_i18n_parser/src/parse_locales/ranges.rs",
 }
